@@ -110,7 +110,8 @@ def cases(tier, seed):
                             if sx is not None:
                                 extra += ["--max-suffix-size", str(sx)]
                             out.append(mk(tree_plain(L, o), "plain", L, o, "metro", d, extra))
-                            out.append(mk(tree_two(L, o), "two", L, o, "metro", d, extra))
+                            if o is not None:
+                                out.append(mk(tree_two(L, o), "two", L, o, "metro", d, extra))
                 for h in ("metro", "sha256"):
                     out.append(mk(tree_plain(L, o), "plain", L, o, h, "ssd", ["--cache"], repeat=2))
                     out.append(mk(tree_plain(L, o), "plain", L, o, h, "ssd", ["-t", "1"]))
